@@ -32,16 +32,18 @@ func VerifDump(m RedisMessage) VerifNode {
 		a := VerifDump(*m.attrs)
 		n.Attrs = &a
 	}
-	if m.array != nil {
+	switch m.typ {
+	case typeArray, typeMap, typeSet, typePush, typeAttribute:
 		vs := m.values()
 		n.Values = make([]VerifNode, len(vs))
 		for i, v := range vs {
 			n.Values[i] = VerifDump(v)
 		}
-	} else if m.bytes != nil {
-		n.Str = string([]byte(m.string()))
-	} else {
+	case typeInteger, typeBool:
 		n.Int = m.intlen
+	case typeNull, typeEnd, 0:
+	default:
+		n.Str = string([]byte(m.string()))
 	}
 	return n
 }
